@@ -245,4 +245,13 @@ class MacroBodyGen:
         body = g.trim_dead([g.stmt(0, False, False) for _ in range(n)])
         if not body:
             body = [g.plain()]
+        if getattr(g.cfg, "hdr_pos", 0) and g.cfg.pos_marks and g.cfg.loops and self.r.random() < 0.25:
+            # a loop of the macro whose condition is an operation that carries a Position literal
+            pos = {"k": "pos", "name": self.r.choice(["m0", "Mark", "p_1", ""]), "x": self.r.choice(["0", "12", "3.5", "0.5"]),
+                   "y": self.r.choice(["1", "20.5", "4"]), "quote": self.r.choice(["'", '"'])}
+            hdr = {"h": "operation", "name": "BranchExecuteSub", "args": [pos]}
+            loop = ({"t": "while", "not": self.r.random() < 0.3, "header": hdr, "body": [g.plain()]} if self.r.random() < 0.6 else
+                    {"t": "for", "init": g.assign(), "header": hdr, "inc": g.assign(), "body": [g.plain()]})
+            g.hit("macro_loop_condition_pos")
+            body.insert(self.r.randint(0, len(body)), loop)
         return body
